@@ -392,7 +392,23 @@ def r4(ctx):
     ctx.floor(R, 10)
 
 
+def r7(ctx):
+    R = "C14-R7"
+    ctx.rule(R, "a topology setter changes the knob it names and nothing else: no Topology::set_* rebuilds a whole configuration struct from "
+                "`Default` (`..Default::default()`), which would silently reset the other knobs - the global latency window falls back to "
+                "0..100 ms when only the distribution's parameter was meant to change")
+    n = 0
+    for b in ctx.w.find(r"^turmoil::top::Topology::set_\w+$"):
+        n += 1
+        dfl = sorted({t["f"] for fb in ctx.w.family(b.id) for bb, t in fb.calls(re.compile(r"^<turmoil::config::\w+ as std::default::Default>::default$"))})
+        ctx.inst(R, f"setter-keeps-the-rest:{b.id.rsplit('::', 1)[1]}", not dfl, b.span, "only the named knob is written" if not dfl else
+                 f"`{b.id}` rebuilds the configuration from {dfl[0]}: every other knob of that struct is reset to its default - links without an override deliver outside the configured "
+                 "latency window from the moment the setter is called")
+    ctx.floor(R, 6)
+
+
 def run(ctx):
+    r7(ctx)
     from . import C05
     C05.r7(ctx, R="C14-R6")   # link deliveries are timed on the topology runtime's tokio clock: it must not run ahead of virtual time
     scan_rule(ctx, "C14")
@@ -405,5 +421,7 @@ def run(ctx):
     C08.r14(ctx)  # a release reschedules only what a hold parked: a travelling message keeps its sampled delivery time
     from . import C03, C09
     C03.r3(ctx, C03.Typestate(ctx.w, C03.CELLS))   # what is in flight is dropped only by a partition (a repair / release loses nothing)
+    from . import C12
+    C12.r9(ctx)   # a connection request that arrived in time is handed out in time: accept looks at the backlog before it parks (notifications coalesce)
     C09.r10(ctx)  # the datagram parked by readable() is the oldest one: it is handed out before anything still queued
     C09.r6(ctx)   # a datagram that arrived is never overwritten in the receive slot (it would never be seen, whatever its latency)
